@@ -66,6 +66,10 @@ class H2Run(AsyncRun):
             if op.sid == 0:
                 for name, sid, flags, length in d.frames[nb:]:
                     self._client_frame(name, sid, flags, length, d)
+        if op.kind == "close" and phase == "start" and op.sid == 0 and not any(e["e"] == "C_CLOSE" for e in self.wire[-1:]):
+            # own: the streams of the caller whose task closes the connection (its own clean-up may do that)
+            call = self.calls.get(op.task)
+            self.wire.append({"e": "C_CLOSE", "own": self._stream_of(call.tok, 0) if call is not None else []})
         if op.kind == "read" and phase == "done" and op.sid == 0 and self.goaway_sent and not self.goaway_delivered:
             rec = self.net.streams[0]
             if rec.delivered >= self.goaway_off:
